@@ -205,6 +205,39 @@ func (fc *FnCtx) run() (err error) {
 			fc.params[fv.Name()] = lv
 		}
 	}
+	// behavioural subtyping, precondition side: a function that implements an interface / function-type contract is
+	// called through that contract, whose callers establish only ITS preconditions; so every precondition of the
+	// function must follow from them (checked here, before the function's own preconditions are assumed)
+	if fc.c != nil && !fc.dry && len(fc.c.Requires) > 0 {
+		for _, impl := range fc.c.Impl {
+			ic := fc.e.specs.Contracts["functype:"+impl]
+			if ic == nil {
+				ic = fc.e.specs.Contracts["iface:"+impl]
+			}
+			if ic == nil {
+				continue
+			}
+			envI := fc.newEnv(fc.entry, fc.entry)
+			envI.vars = map[string]V{}
+			names := ic.Params
+			if ic.Kind == "functype" {
+				names = names[1:]
+			}
+			for i, n := range names {
+				if i < len(fn.Params) {
+					envI.vars[n] = fc.vals[fn.Params[i]]
+				}
+			}
+			var ps []string
+			for _, r := range ic.Requires {
+				ps = append(ps, envI.evalBool(r.E))
+			}
+			envO := fc.newEnv(fc.entry, fc.entry)
+			for _, r := range fc.c.Requires {
+				fc.oblige("implpre", ic.Name+"."+r.Label, implies(and(ps...), envO.evalBool(r.E)), fn.Pos(), fc.clauseProps(r), r.Text)
+			}
+		}
+	}
 	// preconditions
 	if fc.c != nil {
 		env := fc.newEnv(fc.entry, fc.entry)
@@ -1134,8 +1167,15 @@ func (fc *FnCtx) toInt64(v V) string {
 }
 
 func (fc *FnCtx) index(x *ssa.Index) {
-	// array value or string (strings use Lookup in go/ssa; arrays are rare)
+	// array value or string (go/ssa uses Index for s[i] on strings since x/tools 0.2x, Lookup before)
 	v := fc.val(x.X)
+	if isString(x.X.Type()) {
+		i := fc.toInt64(fc.val(x.Index))
+		fc.safe("index", sx("bvult", i, sx("slen", v.T[0])), x.Pos(), isKind[*ast.IndexExpr])
+		fc.assume(sx("bvult", i, sx("slen", v.T[0])))
+		fc.vals[x] = V{Ty: x.Type(), T: []string{sx("select", sx("strarr", v.T[0]), i)}}
+		return
+	}
 	if arr, ok := x.X.Type().Underlying().(*types.Array); ok {
 		n := len(fc.e.comps(arr.Elem()))
 		if c, ok := x.Index.(*ssa.Const); ok {
